@@ -2,7 +2,7 @@
 # runs every registered thorough check once, sequentially, and prints exit code + wall time
 cd "$(dirname "$0")/.."
 ./setup.sh >/dev/null 2>&1 || { echo "setup failed"; exit 2; }
-for c in C05 C10 C04 C06 C07 C08 C09 C17 C20 C01 C02 C03 C13 C12 C11 C18 C19 C14 C16; do
+for c in C05 C10 C04 C06 C07 C08 C09 C17 C20 C01 C02 C03 C13 C12 C11 C18 C19 C14 C16 C15; do
   s=$(date +%s); out=$(nice -n 10 ./check $c --tier thorough 2>&1 | grep -v KNOWN-FINDING | tail -2 | cut -c1-200); rc=$?
   echo "== $c $(( $(date +%s) - s ))s :: $out"
 done
